@@ -38,7 +38,7 @@ NO_EXTRA_ARGS = {"pixee:python/timezone-aware-datetime", "pixee:python/secure-ra
 def run(chk: Check) -> None:
     from .. import seeds
 
-    vectors = [v for v in progspace.enumerate_vectors(chk, with_args=True) if v["mult"] == 1 and v["imp"] == "asis" and v["layout"] != "bom" and v["args"] not in ("same-line-pair", "multiline", "list-elements", "fstring-field")]
+    vectors = [v for v in progspace.enumerate_vectors(chk, with_args=True) if v["mult"] == 1 and v["imp"] == "asis" and v["layout"] != "bom" and v["args"] not in ("same-line-pair", "multiline", "list-elements", "fstring-field", "inline-suite")]
     scenarios = progspace.build_batches(chk, codemods=set(HARDENING), vectors=vectors, seeds_per_codemod=chk.pick(4, 14), vectors_per_seed=chk.pick(9, 40), with_extra=True)
     extra_keys = {s_.key for s_ in seeds.extra()}
     for scn in scenarios:
